@@ -113,8 +113,7 @@ def main(argv=None):
         with open(a.replay) as f:
             rec = json.load(f)
         case = rec.get("case", rec)
-        specs = [{"seed": a.seed, "replay": case, "watchdog_s": 900, "tier": a.tier, "debug_logging": bool(rec.get("debug_logging")), "hashseed": int(rec.get("hashseed", 0)),
-                  "objective_fresh": bool(rec.get("objective_not_the_singleton"))}]
+        specs = [{"seed": a.seed, "replay": case, "watchdog_s": 900, "tier": a.tier, "debug_logging": bool(rec.get("debug_logging")), "hashseed": int(rec.get("hashseed", 0))}]
     else:
         specs = m.plan(a.tier, a.seed)
         for sp_ in specs:
